@@ -36,6 +36,8 @@ namespace {
 //        18 good A records, then an A record with RDLENGTH 0-3 at the very end   19 an A record with RDLENGTH 5-8, then good ones
 //        21 an RCODE of 6..15 (YXDOMAIN, NOTAUTH, BADVERS...)   22/23 good A records, then a CNAME whose RDLENGTH points behind the
 //        end of the datagram and whose name is cut off by it (22 inside a label, 23 between labels)
+//        24 good A records and a record (CNAME target, or the owner name of an A record) with a label whose length octet is 64..143: longer than
+//           any label a well-formed name has, and all its bytes are there
 //        17 a label followed by a pointer back to that label (a loop that every single pointer check 'target lies before me' accepts)
 void generate(sim::Rng &r, uint64_t seed, const std::string &tier, sim::Plan &p) {
   bool thorough = tier == "thorough";
@@ -57,7 +59,7 @@ void generate(sim::Rng &r, uint64_t seed, const std::string &tier, sim::Plan &p)
     else {
       long kind;
       unsigned y = (unsigned)r.below(100);
-      if (y < 30) kind = r.range(0, 2); else if (y < 42) kind = r.range(3, 6); else kind = r.range(7, 23);
+      if (y < 30) kind = r.range(0, 2); else if (y < 42) kind = r.range(3, 6); else kind = r.range(7, 24);
       op.kind = "reply"; op.a = {dt, (long)r.below((uint64_t)made), kind, (long)r.below(80), r.range(0, 4)};
     }
     p.ops.push_back(op);
@@ -162,12 +164,20 @@ std::vector<uint8_t> craft(const Lookup &l, long kind, long arg, long nrec, uint
   if (kind == 1) { name_ptr(qname_off); put16(b, 5); put16(b, 1); put32(b, serial); std::vector<uint8_t> cn; put_name(cn, "alias" + std::to_string(arg) + ".example.org"); put16(b, (unsigned)cn.size()); b.insert(b.end(), cn.begin(), cn.end()); }
   if (kind == 2) { name_ptr(qname_off); put16(b, 16); put16(b, 1); put32(b, serial); put16(b, 5); for (int i = 0; i < 5; ++i) b.push_back((uint8_t)('t' + i)); }
   if (kind == 19) { name_ptr(qname_off); put16(b, 1); put16(b, 1); put32(b, serial); long n = 5 + arg % 4; put16(b, (unsigned)n); for (long i = 0; i < n; ++i) b.push_back((uint8_t)(77 + i)); }   // an A record that is too long, before the good ones
-  if (kind <= 2 || kind == 7 || kind == 8 || kind == 14 || kind == 13 || kind == 18 || kind == 19 || kind == 22 || kind == 23) {
+  if (kind <= 2 || kind == 7 || kind == 8 || kind == 14 || kind == 13 || kind == 18 || kind == 19 || kind == 22 || kind == 23 || kind == 24) {
     for (long i = 0; i < an; ++i) {
       if (i % 2 == 0) name_ptr(qname_off); else put_name(b, l.domain);
       put16(b, 1); put16(b, 1); put32(b, serial); put16(b, 4);
       b.push_back(10); b.push_back((uint8_t)(arg & 0xff)); b.push_back((uint8_t)i); b.push_back((uint8_t)(serial & 0xff));
     }
+  }
+  if (kind == 24) {
+    std::vector<uint8_t> nm; long n = 64 + arg; nm.push_back((uint8_t)n); for (long i = 0; i < n; ++i) nm.push_back((uint8_t)('a' + i % 26));
+    put_name(nm, "example.org");
+    if (arg % 2) { name_ptr(qname_off); put16(b, 5); put16(b, 1); put32(b, serial); put16(b, (unsigned)nm.size()); b.insert(b.end(), nm.begin(), nm.end()); }
+    else { b.insert(b.end(), nm.begin(), nm.end()); put16(b, 1); put16(b, 1); put32(b, serial); put16(b, 4); b.push_back(10); b.push_back(24); b.push_back(24); b.push_back((uint8_t)arg); }
+    b[6] = (uint8_t)((an + 1) >> 8); b[7] = (uint8_t)(an + 1);
+    return b;
   }
   if (kind == 18) { name_ptr(qname_off); put16(b, 1); put16(b, 1); put32(b, serial); long n = arg % 4; put16(b, (unsigned)n); for (long i = 0; i < n; ++i) b.push_back((uint8_t)(66)); }   // a short A record (0-3 bytes of address) ends the datagram
   if (kind == 22 || kind == 23) {
@@ -203,7 +213,8 @@ bool ref_name(const std::vector<uint8_t> &d, size_t &pos, std::string &out) {
       if (!jumped) pos = p + 2;
       jumped = true; p = off; continue;
     }
-    if (len & 0xc0) return false;
+    // length octets 64..191 (top bits 01/10, reserved by RFC 1035): the client takes them for plain lengths; the bytes it reports are
+    // in the datagram all the same, so the reference reads them the same way (the oracle below is an inclusion, a client that refuses them passes too)
     if (p + 1 + len > d.size()) return false;
     if (!out.empty()) out.push_back('.');
     out.append(reinterpret_cast<const char *>(&d[p + 1]), len);
@@ -322,7 +333,7 @@ void execute(const sim::Plan &plan) {
         if (W.lk.empty()) return;
         Lookup &L = W.lk[(size_t)(std::max(0L, op->arg(1)) % (long)W.lk.size())];
         uint32_t serial = ++W.serial;
-        std::vector<uint8_t> b = craft(L, ((op->arg(2) % 24) + 24) % 24, std::max(0L, op->arg(3)), op->arg(4), serial);
+        std::vector<uint8_t> b = craft(L, ((op->arg(2) % 25) + 25) % 25, std::max(0L, op->arg(3)), op->arg(4), serial);
         W.sent.push_back(Sent{serial, b, sim::now_ns(), (long)(&L - &W.lk[0])});
         sim::trace("reply kind=%ld serial=%u len=%zu", op->arg(2), serial, b.size());
         sim::relevant();
